@@ -13,7 +13,7 @@ if [ ! -d .cache/seed-gocache ]; then
   T=$(mktemp -d)
   mkdir -p "$T/m"
   printf 'module seed\n\ngo 1.23\n' > "$T/m/go.mod"
-  printf 'package main\n\nfunc main() { println("x") }\n' > "$T/m/main.go"
+  printf 'package main\n\nimport "reflect"\n\nfunc main() { println("x", reflect.DeepEqual(1, 2)) }\n' > "$T/m/main.go"
   (cd "$T/m" && GOCACHE="$T/cache" CGO_ENABLED=0 go build -o "$T/m/x" .)
   rm -rf .cache/seed-gocache
   mv "$T/cache" .cache/seed-gocache
